@@ -760,7 +760,12 @@ def run(ck):
             layouts = [rot % 4] if quick else ([rot % 4, (rot + 1) % 4] if mspec in USER_MEANS else range(4))
             for si in layouts:
                 r2 = rot + si
-                prob = make_problem(SHAPES[si], AKINDS[r2 % 3], ("uniform", "mixed")[r2 % 2], 1 + (r2 // 2) % 2, pk1[r2 % 3], seed)
+                akind = AKINDS[r2 % 3]
+                if SHAPES[si][0] == 1 and akind == "zerorow" and mspec == "U0":
+                    # a one-row matrix whose row is zero says nothing about the field, and this mean has no hyper-parameter:
+                    # the posterior mean would not depend on the hyper-parameters at all and a stale answer could not be seen
+                    akind = AKINDS[(r2 + 1) % 3]
+                prob = make_problem(SHAPES[si], akind, ("uniform", "mixed")[r2 % 2], 1 + (r2 // 2) % 2, pk1[r2 % 3], seed)
                 for wi, which in enumerate(sets):
                     if quick and wi != (r2 % 2):
                         continue
